@@ -229,6 +229,14 @@ func (tp *tdposConsensus) CheckMinerMatch(ctx xcontext.XContext, block cctx.Bloc
 	}
 	pNode := tp.smr.BlockToProposalNode(block)
 	preBlock, _ := tp.election.ledger.QueryBlock(block.GetPreHash())
+	// justify是对前序区块的认证: 下面用前序区块所在term的候选人集合验证其签名, 因此其id和view(即高度)必须与前序区块一致,
+	// 否则新一轮term的候选人可以为上一轮term的区块(由另一候选人集合负责)出具认证
+	if !bytes.Equal(justify.GetProposalId(), preBlock.GetBlockid()) || justify.GetProposalView() != preBlock.GetHeight() {
+		tp.log.Warn("Tdpos::CheckMinerMatch::justify doesn't certify the previous block", "logid", ctx.GetLog().GetLogId(),
+			"justifyQC:[height]", justify.GetProposalView(), "justifyQC:[id]", utils.F(justify.GetProposalId()),
+			"preBlock:[height]", preBlock.GetHeight(), "preBlock:[id]", utils.F(preBlock.GetBlockid()))
+		return false, InvalidQC
+	}
 	prestorage, _ := preBlock.GetConsensusStorage()
 	validators, err := tp.election.CalOldProposers(preBlock.GetHeight(), preBlock.GetTimestamp(), prestorage)
 	if err != nil {
